@@ -91,6 +91,7 @@ class _Run:
         self.in_raise = 0
         self.loopvars = []
         self.sources = []
+        self.single_texts = set()
 
     def src(self, kind, cls, text, line):
         self.sources.append((line, text))
@@ -265,11 +266,14 @@ class _Run:
     def singleton_guard(self, s):
         t = s.test
         if isinstance(t, ast.Compare) and len(t.ops) == 1 and isinstance(t.left, ast.Call) and u(t.left.func) == "len" and len(t.left.args) == 1 \
-                and isinstance(t.left.args[0], ast.Name) and isinstance(t.comparators[0], ast.Constant):
+                and isinstance(t.left.args[0], (ast.Name, ast.Attribute)) and isinstance(t.comparators[0], ast.Constant):
             c = t.comparators[0].value
             if (isinstance(t.ops[0], ast.Gt) and c == 1) or (isinstance(t.ops[0], ast.GtE) and c == 2) or (isinstance(t.ops[0], ast.NotEq) and c == 1):
                 if s.body and isinstance(s.body[-1], ast.Raise) and not s.orelse:
-                    return t.left.args[0].id
+                    if isinstance(t.left.args[0], ast.Name):
+                        return t.left.args[0].id
+                    # the guarded collection is written out (x.free_symbols): from here on that expression denotes at most one element
+                    self.single_texts.add(" ".join(u(t.left.args[0]).split()))
         return None
 
     def setvals_iter(self, it, env):
@@ -353,6 +357,8 @@ class _Run:
         if isinstance(e, ast.Attribute):
             base = self.ev(e.value, env)
             if e.attr == "free_symbols":
+                if " ".join(u(e).split()) in self.single_texts:
+                    return None            # behind `if len(<this>) > 1: raise`: a collection of at most one element has one order
                 return self.src("set", "str", "%s (SymPy symbols hash from their names)" % u(e), e.lineno)
             if e.attr == "regrefs" and isinstance(e.ctx, ast.Load):
                 return self.src("seq", "str", "%s (register order of a transform follows the set order of its free symbols)" % u(e), e.lineno)
